@@ -157,13 +157,30 @@ fn options(na: usize, stop: Option<char>) -> ParserOptions {
     o
 }
 
+/// History independence: when `warm` is set the `PathParser` object has already parsed another
+/// string with another attribute count (possibly ending in an error) before the parse under test.
+/// The model knows nothing about histories: a parser that carries state across calls breaks the tie.
+const WARMUPS: [(&str, usize); 3] = [("M 1 2 3 4 5 L 6 7 8 9 10 Z", 3), ("M 0 0 1 L 1 1 2 x", 1), ("M 0 0 L 5", 0)];
+
 fn run_parse(chars: &Rc<Vec<char>>, na: usize, stop: Option<char>) -> Run {
+    run_parse_h(chars, na, stop, None)
+}
+
+fn run_parse_h(chars: &Rc<Vec<char>>, na: usize, stop: Option<char>, warm: Option<usize>) -> Run {
+    let mut parser = PathParser::new();
+    if let Some(w) = warm {
+        let (text, wna) = WARMUPS[w % WARMUPS.len()];
+        let wchars: Rc<Vec<char>> = Rc::new(text.chars().collect());
+        let mut wrec = Recorder { na: wna, chars: wchars.clone(), c: Counter::default(), calls: Rc::new(RefCell::new(Vec::new())) };
+        let _ = std::panic::catch_unwind(std::panic::AssertUnwindSafe(|| {
+            parser.parse(&options(wna, None), &mut Source::new(wchars.iter().copied()), &mut wrec)
+        }));
+    }
     let c = Counter::default();
     let calls = Rc::new(RefCell::new(Vec::new()));
     let mut rec = Recorder { na, chars: chars.clone(), c: c.clone(), calls: calls.clone() };
     let opts = options(na, stop);
     let mut src = Source::new(CountIter { chars: chars.clone(), c: c.clone() });
-    let mut parser = PathParser::new();
     let r = std::panic::catch_unwind(std::panic::AssertUnwindSafe(|| parser.parse(&opts, &mut src, &mut rec)));
     let (res, panic_msg) = match r {
         Ok(x) => (Some(x), String::new()),
@@ -888,8 +905,10 @@ fn str_case_x(ctx: &mut Ctx, text: String, na: usize, stop: Option<char>, tag: S
         };
         let trivial = if chars.is_empty() { " trivial" } else { "" };
         let tag = format!("{} na={} stop={} {} calls={}{}", tag, na, stop.is_some() as u8, kind, pre.calls.len().min(9), trivial);
+        // two cases in three run on a parser object with a history (see WARMUPS)
+        let warm = match (chars.len() + 2 * na) % 6 { 0 | 3 => None, k => Some(k) };
         (args, tag, move || {
-            let run = run_parse(&chars, na, stop);
+            let run = run_parse_h(&chars, na, stop, warm);
             let mut o = Out::new();
             for t in tokens(&run) {
                 o.t(&t);
